@@ -1,4 +1,4 @@
-(* K12b -- the quote-restoration step processing._substitute_original_strings (processing.py:91-203).
+(* K12b -- the quote-restoration step processing._substitute_original_strings (processing.py:94-222).
    After every rewrite the code looks at each string constant node of the NEW source (on Python 3.12 this
    includes the literal fragments of f-strings, whose source text is the bare fragment) and, when its
    spelling does not occur among the spellings the ORIGINAL source used for the same value, overwrites it
@@ -7,9 +7,10 @@
      o_lit / n_lit = the spelling, parsed on its own, is valid Python AND is a string constant with exactly
                      that value (is_valid_python + match_template against Constant(value)).
    Counter(set).most_common(1) picks an arbitrary element, so the model returns the SET of admissible
-   replacements.  The prefix (b/r/f) adjustment is not modelled (harness compares modulo prefix letters).
+   replacements (restore_node); the spelling actually written -- most_common, the b/r/f prefix adjustment and
+   the literal_eval check of repair c664901 -- is restore_write below.
    Mirrors the code as it is.  No proofs in this file. *)
-From Coq Require Import List Arith Bool.
+From Coq Require Import List Arith NArith Bool.
 Import ListNotations.
 
 Record sorig := mkO { o_val : nat; o_text : nat; o_lit : bool }.
@@ -111,7 +112,106 @@ Definition restore_pick_case_ok (c : bool * list (nat * nat * bool) * list (nat 
   let '(a, os, ns, obs) := c in all_pick_ok (restore_pick a (mkOs os) (mkNs ns)) obs.
 
 (* ---------------------------------------------------------------------------------------------- *)
-(* processing._substitute_original_fstrings (processing.py:205-259): JoinedStr nodes, keyed by their
+(* The spelling that is WRITTEN (processing.py:171-222, after repair c664901).  The prefix letters of the most
+   common original spelling and of the node's own spelling are compared as sets over {b, r, f} (lower-cased
+   characters before the first quote); when they differ the new prefix, in the order f r b, is pasted in front
+   of the original spelling stripped of its leading brfBRF letters.  The result is used only when
+   ast.literal_eval says it is a literal of the node's type and value; otherwise the node is left alone.
+     o_pre / n_pre = the characters (code points) of the spelling before its first quote character
+     o_eval        = what ast.literal_eval yields for the original spelling (interned value, None = raises;
+                     values of another type are interned as other values)
+     adjtab        = CPython's verdict about pasted spellings: (spelling t, prefix p) |-> (spelling id of
+                     p + t.lstrip("brfBRF"), what ast.literal_eval yields for it)
+   The string operations lstrip / + themselves stay in Python (the table is built by the harness with the
+   same expression and the written text is compared exactly). *)
+Record worig := mkWO { wo : sorig; o_pre : list N; o_eval : option nat }.
+Record wnode := mkWN { wn : snode; n_pre : list N }.
+Definition adjtab := list (nat * list N * nat * option nat).
+
+Definition is_b (c : N) : bool := N.eqb c 98 || N.eqb c 66.
+Definition is_r (c : N) : bool := N.eqb c 114 || N.eqb c 82.
+Definition is_f (c : N) : bool := N.eqb c 102 || N.eqb c 70.
+(* {ch.lower() for ch in text before the first quote} & set("brf"), as (f, r, b) *)
+Definition mods_of (pre : list N) : bool * bool * bool := (existsb is_f pre, existsb is_r pre, existsb is_b pre).
+Definition mods_eqb (x y : bool * bool * bool) : bool :=
+  let '(f1, r1, b1) := x in let '(f2, r2, b2) := y in Bool.eqb f1 f2 && Bool.eqb r1 r2 && Bool.eqb b1 b2.
+(* "".join(sorted(new_modifiers, key="frb".index)) *)
+Definition prefix_of (m : bool * bool * bool) : list N :=
+  let '(f, r, b) := m in (if f then [102%N] else []) ++ (if r then [114%N] else []) ++ (if b then [98%N] else []).
+
+Fixpoint leqb (a b : list N) : bool :=
+  match a, b with
+  | [], [] => true
+  | x :: a', y :: b' => N.eqb x y && leqb a' b'
+  | _, _ => false
+  end.
+Definition lookup_adj (adj : adjtab) (t : nat) (p : list N) : option (nat * option nat) :=
+  match find (fun e => (fst (fst (fst e)) =? t) && leqb (snd (fst (fst e))) p) adj with
+  | Some e => Some (snd (fst e), snd e)
+  | None => None
+  end.
+
+(* the candidate spelling after the prefix adjustment, with literal_eval's verdict about it *)
+Definition written (origs : list worig) (adj : adjtab) (nd : wnode) (c : list nat) : option (nat * option nat) :=
+  let t := most_common c in
+  match find (fun o => (o_text (wo o) =? t) && (o_val (wo o) =? n_val (wn nd)) && o_lit (wo o)) origs with
+  | None => None
+  | Some o =>
+      if mods_eqb (mods_of (n_pre nd)) (mods_of (o_pre o)) then Some (t, o_eval o)
+      else lookup_adj adj t (prefix_of (mods_of (n_pre nd)))
+  end.
+
+Definition restore_write_node (origs : list worig) (news : list wnode) (adj : adjtab) (nd : wnode) : option nat :=
+  match restore_node (map wo origs) (map wn news) (wn nd) with
+  | None => None
+  | Some c =>
+      match written origs adj nd c with
+      | Some (w, Some v) => if v =? n_val (wn nd) then Some w else None
+      | _ => None
+      end
+  end.
+
+Definition restore_write (all_in_source : bool) (origs : list worig) (news : list wnode) (adj : adjtab)
+  : list (option nat) :=
+  match news, origs with
+  | [], _ | _, [] => map (fun _ => None) news
+  | _, _ =>
+      if all_in_source || nothing_new (map wo origs) (map wn news) then map (fun _ => None) news
+      else map (restore_write_node origs news adj) news
+  end.
+
+(* the step before repair c664901: the pasted spelling was used whatever it evaluates to *)
+Definition restore_write_node_unchecked (origs : list worig) (news : list wnode) (adj : adjtab) (nd : wnode)
+  : option (nat * option nat) :=
+  match restore_node (map wo origs) (map wn news) (wn nd) with
+  | None => None
+  | Some c => written origs adj nd c
+  end.
+
+(* correspondence: observed = None (left alone) or Some (id of the exact text that was written) *)
+Definition onat_eqb (a b : option nat) : bool :=
+  match a, b with
+  | None, None => true
+  | Some x, Some y => x =? y
+  | _, _ => false
+  end.
+Fixpoint all_write_ok (ms os : list (option nat)) : bool :=
+  match ms, os with
+  | [], [] => true
+  | m :: ms', o :: os' => onat_eqb m o && all_write_ok ms' os'
+  | _, _ => false
+  end.
+Definition mkWOs (l : list (nat * nat * bool * list N * option nat)) : list worig :=
+  map (fun x => let '(v, t, b, p, e) := x in mkWO (mkO v t b) p e) l.
+Definition mkWNs (l : list (nat * nat * bool * list N)) : list wnode :=
+  map (fun x => let '(v, t, b, p) := x in mkWN (mkN v t b) p) l.
+Definition restore_write_case_ok
+  (c : bool * list (nat * nat * bool * list N * option nat) * list (nat * nat * bool * list N) * adjtab
+       * list (option nat)) : bool :=
+  let '(a, os, ns, adj, obs) := c in all_write_ok (restore_write a (mkWOs os) (mkWNs ns) adj) obs.
+
+(* ---------------------------------------------------------------------------------------------- *)
+(* processing._substitute_original_fstrings (processing.py:225-268): JoinedStr nodes, keyed by their
    ast.unparse text; no early exit; the guard on the overwritten spelling is is_valid_python ONLY.
      fo_valid / fn_valid = is_valid_python(spelling)
      fn_self             = the spelling, parsed on its own, is an f-string with that unparse key
